@@ -58,6 +58,25 @@ fn wrap_invariants(out: &[u8], width: usize) -> Result<(), String> {
     Ok(())
 }
 
+/// a writer that takes at most 1 (even calls) or 3 (odd calls) bytes per `write`
+#[derive(Default)]
+pub struct ShortWriter {
+    pub inner: Vec<u8>,
+    calls: usize,
+}
+
+impl std::io::Write for ShortWriter {
+    fn write(&mut self, buf: &[u8]) -> std::io::Result<usize> {
+        let n = buf.len().min(if self.calls % 2 == 0 { 1 } else { 3 });
+        self.calls += 1;
+        self.inner.extend_from_slice(&buf[..n]);
+        Ok(n)
+    }
+    fn flush(&mut self) -> std::io::Result<()> {
+        Ok(())
+    }
+}
+
 /// all chunkings of `seq`: every composition, each plain and with 1-2 empty chunks at one position
 fn chunkings_of(seq: &[u8]) -> Vec<Vec<Vec<u8>>> {
     let n = seq.len();
@@ -108,9 +127,16 @@ pub fn c10(tier: Tier) -> i32 {
                 replay: json!({"kind": "writer", "entry": entry, "seq": esc(&seq), "width": w}),
             });
         };
-        let mut wv = |f: &dyn Fn(&mut Vec<u8>) -> std::io::Result<()>| -> Vec<u8> {
+        let short_bad: std::cell::RefCell<Option<String>> = std::cell::RefCell::new(None);
+        let mut wv = |f: &dyn Fn(&mut dyn std::io::Write) -> std::io::Result<()>| -> Vec<u8> {
             let mut v = vec![];
             f(&mut v).unwrap();
+            // the same call into a writer that accepts 1 or 3 bytes per write(): same bytes
+            let mut s = ShortWriter::default();
+            let r = f(&mut s);
+            if r.is_err() || s.inner != v {
+                *short_bad.borrow_mut() = Some(format!("a writer accepting 1-3 bytes per write() received {:?} ({:?}), a Vec {:?}", esc(&s.inner), r.map_err(|e| e.to_string()), esc(&v)));
+            }
             v
         };
         let whole_wrapped = wv(&|o| fasta::write_wrap_seq(o, &seq, w));
@@ -214,6 +240,9 @@ pub fn c10(tier: Tier) -> i32 {
                 }
             }
         }
+        if let Some(m) = short_bad.borrow_mut().take() {
+            bad("short-writes", m, l);
+        }
         if (n, w) == (5, 2) {
             l.samples.push(json!({"seq": esc(&seq), "width": w, "write_wrap_seq": esc(&whole_wrapped), "chunkings": chunkings_of(&seq).len()}));
         }
@@ -222,7 +251,7 @@ pub fn c10(tier: Tier) -> i32 {
         Report {
             property: "C10".into(),
             tier: tier.name().into(),
-            rule: format!("sequences = first n positional letters, n = 0..{}; every wrap width 1..n+2; {} headers (empty, spaces leading/trailing/multiple, '>' inside, non-UTF-8, CR inside / leading); entry points write_to, write_parts, write_wrap, write_head, write_id_desc, write_seq, write_wrap_seq, write_seq_iter, write_wrap_seq_iter, OwnedRecord::{{write,write_wrap}}, RefRecord::{{write,write_wrap}} (RefRecord parsed from every line splitting of the sequence, LF and CRLF); ALL 2^(n-1) compositions of the sequence into chunks, each also with 1-2 empty chunks inserted at every position; oracle: output parses back (reference parser and real reader) to (header, sequence), 2-3 records back to back parse to the list, wrapped lines <= width and all but the last = width, chunked output = whole output byte for byte (n >= 1)", maxn, HEADS.len()),
+            rule: format!("sequences = first n positional letters, n = 0..{}; every wrap width 1..n+2; {} headers (empty, spaces leading/trailing/multiple, '>' inside, non-UTF-8, CR inside / leading); entry points write_to, write_parts, write_wrap, write_head, write_id_desc, write_seq, write_wrap_seq, write_seq_iter, write_wrap_seq_iter, OwnedRecord::{{write,write_wrap}}, RefRecord::{{write,write_wrap}} (RefRecord parsed from every line splitting of the sequence, LF and CRLF); ALL 2^(n-1) compositions of the sequence into chunks, each also with 1-2 empty chunks inserted at every position; oracle: output parses back (reference parser and real reader) to (header, sequence), 2-3 records back to back parse to the list, wrapped lines <= width and all but the last = width, chunked output = whole output byte for byte (n >= 1); every call repeated into a writer that accepts only 1 or 3 bytes per write(): same bytes", maxn, HEADS.len()),
             exhaustive: true,
             assumptions: vec!["sequence bytes are positional letters (no LF, CR, '>'); the writers never inspect sequence bytes".into()],
             extra: json!({"states_note": "states = (sequence length, width, header, entry point, chunking) cases; transitions = writer calls"}),
@@ -294,9 +323,16 @@ pub fn c11(tier: Tier) -> i32 {
         let id = parts.next().unwrap();
         let desc = parts.next();
         let owned = fastq::OwnedRecord { head: head.to_vec(), seq: seq.clone(), qual: qual.clone() };
-        let wv = |f: &dyn Fn(&mut Vec<u8>) -> std::io::Result<()>| -> Vec<u8> {
+        let short_bad: std::cell::RefCell<Option<String>> = std::cell::RefCell::new(None);
+        let wv = |f: &dyn Fn(&mut dyn std::io::Write) -> std::io::Result<()>| -> Vec<u8> {
             let mut v = vec![];
             f(&mut v).unwrap();
+            // the same call into a writer that accepts 1 or 3 bytes per write(): same bytes
+            let mut s = ShortWriter::default();
+            let r = f(&mut s);
+            if r.is_err() || s.inner != v {
+                *short_bad.borrow_mut() = Some(format!("a writer accepting 1-3 bytes per write() received {:?} ({:?}), a Vec {:?}", esc(&s.inner), r.map_err(|e| e.to_string()), esc(&v)));
+            }
             v
         };
         let mut outs: Vec<(&str, Vec<u8>)> = vec![
@@ -329,6 +365,15 @@ pub fn c11(tier: Tier) -> i32 {
                     });
                 }
             }
+        }
+        if let Some(m) = short_bad.borrow_mut().take() {
+            l.violation(Violation {
+                property: "C11".into(),
+                sig: "fastq|short-writes".into(),
+                detail: format!("head {:?} seq {:?} qual {:?}: {}", esc(head), esc(&seq), esc(&qual), m),
+                weight: (n * 10) as u64,
+                replay: json!({"kind": "writer", "entry": "short-writes", "head": esc(head), "seq": esc(&seq), "qual": esc(&qual)}),
+            });
         }
         if n == 2 && idx as usize % HEADS.len() == 2 {
             l.samples.push(json!({"head": esc(head), "seq": esc(&seq), "qual": esc(&qual), "write_to": esc(&outs[0].1)}));
@@ -439,7 +484,7 @@ pub fn c11(tier: Tier) -> i32 {
         Report {
             property: "C11".into(),
             tier: tier.name().into(),
-            rule: format!("(a) fastq::write_to, write_parts, OwnedRecord::write, RefRecord::write (parsed from LF and CRLF input) over {} headers x equal-length sequence/quality of length 0..{} x 1-3 records back to back: parse-back (reference parser and real reader) equality; (b) every well-formed file of the record-shape family (LF/CRLF, final terminator present/absent, 0-2 trailing blank lines, FASTA 0/2 leading blank lines) under every capacity 3..len+2 and 64 KiB, via next() and via record sets: FASTQ concatenated write_unchanged = input with trailing blank lines dropped and a final terminator (byte exact); FASTA re-parses to identical records and equals the input after deleting blank lines and normalising the final terminator", HEADS.len(), maxn),
+            rule: format!("(a) fastq::write_to, write_parts, OwnedRecord::write, RefRecord::write (parsed from LF and CRLF input) over {} headers x equal-length sequence/quality of length 0..{} x 1-3 records back to back: parse-back (reference parser and real reader) equality, every call repeated into a writer accepting 1 or 3 bytes per write(); (b) every well-formed file of the record-shape family (LF/CRLF, final terminator present/absent, 0-2 trailing blank lines, FASTA 0/2 leading blank lines) under every capacity 3..len+2 and 64 KiB, via next() and via record sets: FASTQ concatenated write_unchanged = input with trailing blank lines dropped and a final terminator (byte exact); FASTA re-parses to identical records and equals the input after deleting blank lines and normalising the final terminator", HEADS.len(), maxn),
             exhaustive: true,
             assumptions: vec!["field contents free of CR/LF by construction".into()],
             extra: json!({"states_note": "states = cases (entry point x fields x count / file x capacity x access path); transitions = records written"}),
